@@ -75,7 +75,11 @@ GroupSet(s) ==
           act : {"errno", "trap"}]
     [] s = "mergeops" ->   \* C02 / C03: two single-condition entries of one syscall on the same argument (alternatives), every pair of operations
          [names : {<<>>, <<1>>},
-          conds : {<<Entry(0, <<c>>), Entry(0, <<d>>)>> : c \in [arg : {0}, op : OpSet, val : {1, 2}], d \in [arg : {0}, op : OpSet, val : {0, 1, 2, 3}]},
+          conds : {<<Entry(0, <<c>>), Entry(0, <<d>>)>> : c \in [arg : {0}, op : OpSet, val : {1, 2}], d \in [arg : {0}, op : OpSet, val : {0, 1, 2, 3}]}
+                  \* ... one of the two alternatives holds for every argument value (>= 0, no bit of 0 set), in front of or behind the other
+                  \cup {<<Entry(0, <<c>>), Entry(0, <<d>>)>> : c \in [arg : {0, 1}, op : {"GreaterOrEqual", "BitsNotSet"}, val : {0}], d \in [arg : {0}, op : OpSet, val : {1, 2}]}
+                  \cup {<<Entry(0, <<c>>), Entry(1, <<e>>), Entry(0, <<d>>)>> : c \in [arg : {0}, op : {"GreaterOrEqual", "BitsNotSet"}, val : {0}],
+                                                                               e \in [arg : {0}, op : {"Equal"}, val : {1}], d \in [arg : {1}, op : {"Equal", "BitsSet"}, val : {1, 2}]},
           act : {"errno"}]
     [] s = "eqruns" ->     \* C03: one syscall with three or four alternatives, each a single Equal test - on alternating arguments, with operands
                            \* whose high words differ (0..3 at W = 1: high word 0 or 1), with another operation between them
